@@ -41,6 +41,11 @@ FamilySucc(g, s) ==
          LET w == g.params[1]  h == g.params[2]  f == g.params[3]  i == s - 1  x == i % w  y == i \div w IN
          IF s = g.n THEN <<>>
          ELSE <<IF x + 1 < w THEN y * w + x + 2 ELSE 0, IF y + 1 < h THEN (y + 1) * w + x + 1 ELSE 0>> \o [k \in 1..f |-> g.n]
+    [] g.family = "ladder" ->       \* two rails of L states; rail state (side, lvl) -> next rail state, join lvl; joins are terminal
+         LET L == g.params[1] IN
+         IF s <= 2 * L THEN LET side == (s - 1) \div L  lvl == (s - 1) % L IN
+                            <<IF lvl + 1 < L THEN side * L + lvl + 2 ELSE 0, 2 * L + lvl + 1>>
+         ELSE <<>>
     [] g.family = "tree" ->
          <<IF 2 * s <= g.n THEN 2 * s ELSE 0, IF 2 * s + 1 <= g.n THEN 2 * s + 1 ELSE 0>>
     [] g.family = "chainbush" ->
@@ -62,7 +67,9 @@ Clo(sf, seen, frontier) ==
   ELSE LET nxt == (UNION {sf[s] : s \in frontier}) \ seen
        IN  Clo(sf, seen \cup nxt, nxt)
 
-Reach(g) == Clo(SuccBF(g), InitB(g), InitB(g))
+\* (the ladder family is thousands of levels deep, too deep for the recursive fixpoint in TLC; both rails start in
+\*  init, so every node is reachable -- TLC's own exploration of the ladder (MCGraph) confirms the count)
+Reach(g) == IF g.family = "ladder" THEN Nodes(g) ELSE Clo(SuccBF(g), InitB(g), InitB(g))
 
 (* BFS layers; Layers(g)[d] = states whose shortest in-boundary path from an
    in-boundary initial state has d states (d-1 transitions) *)
